@@ -44,6 +44,11 @@ class Scenario(object):
         self.group = None       # scenarios with the same standards in different orders share a group
 
     def new_slot(self, value, kind="known", guess=None):
+        if kind == "known":
+            # vnacal_make_scalar_parameter returns the predefined handles for 0, 1 and -1
+            for k0 in (0, 1, 2):
+                if value == self.slots[k0]:
+                    return k0
         k = len(self.slots)
         self.slots[k] = value
         self.slot_kind[k] = kind
@@ -616,8 +621,8 @@ def gen_argcheck(ctx, drv):
                 s.exact = False
                 s.argcheck = True
                 for k in range(3, 8):
-                    s.slots[k] = QI(Fraction(rng.randint(-7, 7), 10), Fraction(rng.randint(-7, 7), 10))
-                    s.slot_kind[k] = "known"
+                    s.slots[k] = QI(Fraction(rng.randint(-7, 7), 10), Fraction(rng.choice([-3, -2, -1, 1, 2, 3]), 10))
+                    s.slot_kind[k] = "known"        # (never 0, 1 or -1: those values are the predefined handles)
                     s.ops.append(("par", k))
                 cand = []
                 for _ in range(14 if quick else 30):
